@@ -1,5 +1,5 @@
 (* Lemmas about the RoleTree model (property C11). *)
-From Verif Require Import Common Gen_StateX Gen_StatusX Gen_StatusProduct RoleTree.
+From Verif Require Import Common Gen_StateX Gen_StatusX Gen_StatusProduct Gen_MergeAtomic RoleTree.
 From Coq Require Import Permutation.
 Open Scope N_scope.
 
@@ -1372,6 +1372,92 @@ Qed.
 Lemma never_lost_in_flight w t ups sched :
   Inv w t -> EL (run_sched sched (cinit t ups)).
 Proof. intro H. apply EL_run, EL_init, (Inv_EdgeOK w), H. Qed.
+
+(* ---- section 7b of the model: merges are atomic because the source says so ---- *)
+
+(* the lock discipline counted by the translator is the one the token semantics assumes *)
+Lemma merge_atomic_in_source : merge_is_atomic = true.
+Proof. vm_compute. reflexivity. Qed.
+
+Lemma merge_atomic_in_source_spelled :
+  merge_is_atomic = true /\
+  (section_ok state_merge_facts = true /\ section_ok status_merge_facts = true /\
+   lf_entry state_merge_facts = 1 /\ lf_entry status_merge_facts = 1 /\
+   lf_locks state_merge_facts = 1 /\ lf_locks status_merge_facts = 1 /\
+   lf_agg_out state_merge_facts = 0 /\ lf_agg_out status_merge_facts = 0 /\
+   section_ok state_get_facts = true /\ section_ok status_get_facts = true /\
+   direct_accesses_runtime = 0).
+Proof.
+  vm_compute. repeat split; reflexivity.
+Qed.
+
+Lemma state_merge_atomic_in_source : state_merge_atomic = true.
+Proof. vm_compute. reflexivity. Qed.
+
+Lemma run_sched_g_atomic sched : forall g,
+  run_sched_g true sched g = mkG (run_sched sched (g_c g)) (g_pend g).
+Proof.
+  unfold run_sched_g, run_sched.
+  induction sched as [|i s IH]; intro g; cbn [fold_left].
+  - destruct g; reflexivity.
+  - rewrite IH. reflexivity.
+Qed.
+
+Lemma never_lost_g (atomic : bool) w t ups sched :
+  atomic = true ->
+  Inv w t ->
+  let g := run_sched_g atomic sched (ginit t ups) in
+  gquiescent g = true ->
+  forall p r x, r <> [] -> get_sub (p ++ r) (g_tree g) = Some (Leaf true ERROR x) ->
+  st_at p (g_tree g) = Some ERROR.
+Proof.
+  intros Ha H g Hq p r x Hr Hg. subst atomic g.
+  rewrite run_sched_g_atomic in *. unfold gquiescent, g_tree in *. cbn [g_c g_pend ginit] in *.
+  apply andb_true_iff in Hq. destruct Hq as [Hq _].
+  exact (never_lost w t ups sched H Hq p r x Hr Hg).
+Qed.
+
+(* the theorem about the code: the switch is set by the translated lock facts *)
+Lemma never_lost_src w t ups sched :
+  Inv w t ->
+  let g := run_sched_g state_merge_atomic sched (ginit t ups) in
+  gquiescent g = true ->
+  forall p r x, r <> [] -> get_sub (p ++ r) (g_tree g) = Some (Leaf true ERROR x) ->
+  st_at p (g_tree g) = Some ERROR.
+Proof. exact (never_lost_g state_merge_atomic w t ups sched state_merge_atomic_in_source). Qed.
+
+(* with the lock released between re-aggregating and storing, the statement is false, already on
+   a loaded tree of two critical tasks: B := CONFIGURED is inside the recompute (it has read A as
+   STANDBY) when A := ERROR is merged through the ERROR shortcut; B then stores MIXED *)
+Definition never_lost_split_statement : Prop :=
+  forall t0 ups sched,
+    let g := run_sched_g false sched (ginit (fresh t0) ups) in
+    gquiescent g = true ->
+    forall p r x, r <> [] -> get_sub (p ++ r) (g_tree g) = Some (Leaf true ERROR x) ->
+    st_at p (g_tree g) = Some ERROR.
+
+Definition wit_s_tree : rtree :=
+  Agg STANDBY INACTIVE [Leaf true STANDBY INACTIVE; Leaf true STANDBY INACTIVE].
+Definition wit_s_ups : list (list nat * state) := [([0]%nat, CONFIGURED); ([1]%nat, ERROR)].
+Definition wit_s_sched : list nat := [0; 0; 1; 1; 1; 1; 0; 0; 0]%nat.
+
+Lemma never_lost_split_refuted : ~ never_lost_split_statement.
+Proof.
+  intro H.
+  specialize (H wit_s_tree wit_s_ups wit_s_sched eq_refl [] [1%nat] INACTIVE
+                (fun e => match e with eq_refl => I end) eq_refl).
+  vm_compute in H. discriminate.
+Qed.
+
+Lemma wit_s_facts :
+  fresh wit_s_tree = wit_s_tree /\ all_counted wit_s_tree = true /\
+  g_tree (run_sched_g false wit_s_sched (ginit wit_s_tree wit_s_ups)) =
+    Agg MIXED INACTIVE [Leaf true CONFIGURED INACTIVE; Leaf true ERROR INACTIVE] /\
+  c_adapter (g_c (run_sched_g false wit_s_sched (ginit wit_s_tree wit_s_ups))) = [ERROR; MIXED] /\
+  (* the same schedule minus the extra step, with atomic merges: nothing is lost *)
+  g_tree (run_sched_g true wit_s_sched (ginit wit_s_tree wit_s_ups)) =
+    Agg ERROR INACTIVE [Leaf true CONFIGURED INACTIVE; Leaf true ERROR INACTIVE].
+Proof. vm_compute. repeat split; reflexivity. Qed.
 
 (* ================================================================== *)
 (* 9. The full statements, where the code falls short, and what holds  *)
